@@ -84,3 +84,43 @@ def canary_flips_count_once():
 
 
 R.canaries.append(("compare.py:canary#switches-plus-flips-equals-mismatches", canary_flips_count_once))
+
+
+# ---- CPython cross-check of the encoder on these functions (vcgen/crosscheck.py)
+def _crosscheck_cases():
+    from vcgen.crosscheck import Case
+
+    def bits(rng, n=None):
+        n = rng.randint(0, 9) if n is None else n
+        return "".join(rng.choice("01") for _ in range(n))
+
+    def call(name, *keys):
+        def real(inp):
+            import whatshap.cli.compare as C
+            try:
+                r = getattr(C, name)(*[inp[k] for k in keys])
+            except Exception as e:        # noqa: BLE001
+                return ("raise", type(e).__name__)
+            if name == "compute_switch_flips":
+                return ("ok", (r.switches, r.flips), {})
+            return ("ok", r, {})
+        return real
+
+    def same_len(rng):
+        n = rng.randint(0, 9)
+        return dict(phasing0=bits(rng, n), phasing1=bits(rng, n if rng.random() < 0.9 else n + 1))
+
+    def cmp_sf(expected, got):
+        return True if got[0] == "ok" else False      # the result object is compared through its fields below
+
+    return [
+        Case("hamming", lambda rng: (lambda n: dict(s0="".join(rng.choice("ABCD") for _ in range(n)), s1="".join(rng.choice("ABCD") for _ in range(n if rng.random() < 0.9 else n + 1))))(rng.randint(0, 8)),
+             call("hamming", "s0", "s1")),
+        Case("switch_encoding", lambda rng: dict(phasing=bits(rng)), call("switch_encoding", "phasing")),
+        Case("compute_switch_flips", same_len, call("compute_switch_flips", "phasing0", "phasing1"),
+             compare=lambda exp, got: got[0] == "ok" and (got[1]["switches"], got[1]["flips"]) == exp[1]),
+        Case("complement", lambda rng: dict(s=bits(rng) if rng.random() < 0.9 else bits(rng) + "2"), call("complement", "s")),
+    ]
+
+
+CROSSCHECK = _crosscheck_cases
